@@ -34,8 +34,10 @@ ASSUMPTIONS = [
     "scope: triggers with one expression and no any-change names (the statement is silent on how the holds interact with "
     "any-change forms); state_hold / state_hold_false are None or non-negative reals",
 ]
-NOT_DECIDED = ["task.wait_until's copy of the hold logic (TrigTime.wait_until / the decorator subsystem in wait_until mode) is not under "
-               "contract: it is covered by the bounded whole-history differential only (bounded.wait_until)",
+NOT_DECIDED = ["task.wait_until: the legacy copy of the hold logic (TrigTime._wait_until) is under contract for a state trigger with one "
+               "expression, no time trigger and no timeout= (legacy.wait_until.*); its interplay with a time trigger / timeout in the "
+               "same call (the shared this_timeout computation) is covered by C15's arming obligation and the bounded whole-history "
+               "differential (bounded.wait_until) only; the new subsystem runs the decorators' own _cycle (new.step / new.start)",
                "composition of the steps into whole histories is by the loop invariant 'loop state = abstraction of the automaton state'; "
                "whole histories are additionally enumerated only up to the stated bound (bounded stand-in)",
                "float rounding at the deadlines (reals)"]
@@ -404,9 +406,269 @@ def h_legacy_start(eng):
         W(eng.oblige(f"{U}/post.no-pending-hold-otherwise", z3.Not(w1t)), "hold-at-start")
 
 
+# ----------------------------------------------------------------------------------------------------------
+# legacy task.wait_until: the third copy of the hold logic (TrigTime._wait_until), step by step against the same automaton.
+# "Run(args)" of the automaton is "the call returns args" here, and the automaton is read up to its first run.
+# ----------------------------------------------------------------------------------------------------------
+def legacy_wait_step(eng, S, H, ident, message, loop_state=None, clock=None, timeout_fires=False, mode="step", check_now=False):
+    """ONE iteration of TrigTime._wait_until#while0 (state trigger with one expression, no time trigger, no timeout) from an
+    arbitrary loop state, or (mode='start') the prologue up to the loop / an immediate return."""
+    from pyvc.interp import Coro, exc, PathEnd, Raised, _Continue, _Break, _Return
+    from pyvc.loader import number_loops
+    from pyvc.stmts import Interpreter, PyModule
+    from .common import QueueS
+    from . import C09 as c09
+    it = Interpreter(eng)
+    it.obj_may_be_none = True
+    mod, Fn, w = c04.trig_env(eng, it)
+    clock.w = w
+    it.method_tables[("Real", "total_seconds")] = lambda interp, obj: obj
+    expr = Rec(name="AstEval<state_trigger>")
+    q_calls, armed = [], {}
+
+    def AstEvalStub(it_, name, gctx, logger_name=None):
+        def ev(it2, vars_):
+            def th():
+                w.emit("expr", "state_trig_eval", vars_)
+                res = ["true", "false", "raises"][eng.choose(3, "state_trig_eval")]
+                expr._fields["last"] = res
+                if res == "raises":
+                    raise exc("UserException", "bad expression")
+                return 1 if res == "true" else 0   # a truth value, not necessarily a bool
+            return Coro(th, "state_trig_eval.eval")
+        expr._fields.update({"parse": lambda it2, src, mode=None: None, "eval": ev,
+                             "get_names": lambda it2: Coro(lambda: SymPySet(list(ident)), "get_names")})
+        return expr
+    mod.env.vars["AstEval"] = AstEvalStub
+    mod.env.vars["STATE_RE"] = Rec(fields={"match": lambda it_, s_: None}, name="STATE_RE")   # classification: C04
+    mod.env.vars["time"].attrs["monotonic"] = lambda it_: clock.read()
+    mod.env.vars["dt_now"] = lambda it_: clock.read()
+    as_t = lambda x: x.t if isinstance(x, SV) else z3.RealVal(x)
+    mod.env.vars["dt"] = PyModule("dt", {"timedelta": lambda it_, seconds=0: SV(as_t(seconds))})
+    mod.env.vars["max"] = lambda it_, a, b: SV(z3.If(as_t(a) >= as_t(b), as_t(a), as_t(b)))
+    mod.env.vars["State"]._fields["notify_var_get"] = lambda i, names_, nv: dict(nv)
+    mod.env.vars["State"]._fields["set"] = lambda it_, *a, **k: None
+
+    def q_get(i, q):
+        def th():
+            q_calls.append("get")
+            w.yield_point("notify_q.get", cancellable=False)
+            to = armed.pop("timeout", None)
+            clock.waited(to, fired=timeout_fires and to is not None)
+            if timeout_fires and to is not None:
+                raise exc("TimeoutError")
+            return list(message)
+        return Coro(th, "notify_q.get")
+    it.method_tables[("Queue", "get")] = q_get
+    mod.env.vars["asyncio"].attrs["Queue"] = lambda it_, n=0: SV(z3.Const("wait_until_q", QueueS))
+
+    def wait_for(i, aw, timeout=None):
+        w.emit("wait_for", timeout)
+        armed["timeout"] = timeout
+        return aw
+    mod.env.vars["asyncio"].attrs["wait_for"] = wait_for
+    fn = mod.func("TrigTime._wait_until")
+    number_loops(fn.node)
+    result = {}
+
+    def at_loop(interp, node, env):
+        e = env
+        while e is not None and not getattr(e, "is_frame", False):
+            e = e.parent
+        result["locals_at_entry"] = dict(e.vars)
+        result["prologue_evals"] = len(w.events("expr"))
+        if mode == "start":
+            result["end"] = "loop-entry"
+            raise PathEnd()
+        expr._fields.pop("last", None)
+        for kk, vv in (loop_state or {}).items():
+            env.vars[kk] = vv
+            e.vars[kk] = vv
+        try:
+            interp.exec_block(node.body, env)
+            result["end"] = "fallthrough"
+        except _Continue:
+            result["end"] = "continue"
+        except _Break:
+            result["end"] = "break"
+        result["locals"] = dict(e.vars)
+        raise PathEnd()
+    it.loop_specs[("TrigTime._wait_until", "while0")] = at_loop
+    ast_ctx = Rec(fields={"name": "file.x.f", "get_global_ctx": lambda it_: Rec(name="gctx"), "get_logger_name": lambda it_: "log"}, name="ast_ctx")
+    kwargs = {"state_trigger": "d.e == '1'", "state_check_now": check_now, "state_hold": S, "state_hold_false": H}
+    cls = mod.env.vars["TrigTime"]
+    try:
+        result["returned"] = it.await_(it.call(it.getattr_(cls, "_wait_until"), [[], ast_ctx], kwargs))
+        result["end"] = "return"
+    except PathEnd:
+        pass
+    except Raised as r:
+        result["end"] = "raised:" + r.exc.cls.name
+    return it, w, expr, result, q_calls
+
+
+def h_legacy_wait(kind):
+    def h(eng):
+        U = f"C05/TrigTime._wait_until#while0[{kind}]"
+        eng.max_steps = 3_000_000
+        S, H = cfg_values(eng)
+        ident, msg, fa, nv = mk_eval_message(eng, kind != "no-eval")
+        fa["marker"] = "this-event-args"
+        waiting = z3.Bool("state_trig_waiting")
+        lst, sft = opt_real("last_state_trig_time"), opt_real("state_false_time")
+        time0 = SV(z3.Const("time0", R))
+        eng.assume(z3.And(lst.t > 0, sft.t > 0, time0.t > 0))
+        eng.assume(z3.Implies(waiting, z3.Not(lst.none)))
+        if S is None:
+            eng.assume(z3.Not(waiting))
+        if H is None:
+            eng.assume(sft.none)
+        args0 = {"trigger_type": "state", "marker": "first-event-args"}
+        vars0 = {"marker": "first-event-vars"}
+        if kind == "timer":
+            eng.assume(waiting)
+        loop_state = {"state_trig_waiting": SV(waiting), "last_state_trig_time": lst, "state_false_time": sft,
+                      "state_trig_notify_info": [vars0, args0], "time0": time0, "exc": None}
+        clock = c04.VClock(eng)
+        # the prologue runs first (its readings are earlier phases of the clock); the loop state is arbitrary at the iteration
+        it, w, expr, res, q_calls = legacy_wait_step(eng, S, H, ident, msg, loop_state=loop_state, clock=clock, timeout_fires=(kind == "timer"), mode="step")
+
+        def W(ob, what):
+            if ob.status == "refuted":
+                ob.witness = {"signature": f"legacy-wait:{kind}:{what}", "subsystem": "legacy", "kind": kind, "what": what, "S_none": S is None, "H_none": H is None}
+            return ob
+        end = res.get("end")
+        eng.cover(f"end:{end}")
+        if end in ("return", "raised:UserException") and "locals" not in res:
+            return   # the prologue's own evaluation raised (no loop iteration on this path)
+        W(eng.oblige(f"{U}/post.the-iteration-ends-by-continue-break-or-fallthrough", end in ("continue", "break", "fallthrough")), "the-iteration-ends-by-continue-break-or-fallthrough")
+        if end not in ("continue", "break", "fallthrough"):
+            return
+        L = res.get("locals", {})
+        ret = L.get("ret")
+        returns = end == "break" and L.get("exc") is None
+        w1 = L.get("state_trig_waiting")
+        w1t = w1.t if isinstance(w1, SV) else z3.BoolVal(bool(w1))
+        _, tl1 = as_opt(L.get("last_state_trig_time"))
+        nf1, tf1 = as_opt(L.get("state_false_time"))
+        f0 = z3.Not(sft.none)
+        t = clock.cur
+        info1 = L.get("state_trig_notify_info")
+        info_marker = marker(info1[1]) if isinstance(info1, list) and len(info1) == 2 else None
+
+        # the clock phases of the iteration: readings before the wait (t_arm) and after it (t)
+        if kind == "no-eval":
+            W(eng.oblige(f"{U}/post.no-evaluation-input-does-not-return", end != "break"), "returned")
+            W(eng.oblige(f"{U}/post.no-evaluation-input-leaves-pending-hold", z3.And(w1t == waiting, z3.Implies(waiting, tl1 == lst.t))), "pending-hold-changed")
+            W(eng.oblige(f"{U}/post.no-evaluation-input-leaves-false-timer", z3.And(nf1 == sft.none, z3.Implies(f0, tf1 == sft.t))), "false-timer-changed")
+            W(eng.oblige(f"{U}/post.no-evaluation-input-evaluates-nothing", "last" not in expr._fields), "evaluated")
+            W(eng.oblige(f"{U}/post.no-evaluation-input-keeps-the-remembered-arguments", info_marker == "first-event-args"), "args-overwritten")
+            return
+        if kind == "timer":
+            arms = w.events("wait_for")
+            ok_arm = len(arms) == 1 and isinstance(arms[0][1], SV)
+            W(eng.oblige(f"{U}/post.wait-armed-once-with-a-timeout", ok_arm), "wait-armed-once-with-a-timeout")
+            if ok_arm:
+                t_arm = [c for (ph, c) in clock.reads if ph == clock.phase - 1]
+                if t_arm:
+                    rem = lst.t + S.t - t_arm[0]
+                    W(eng.oblige(f"{U}/post.wait-armed-with-the-remaining-hold-time", arms[0][1].t == z3.If(rem >= 0, rem, 0)), "wrong-timeout")
+                else:
+                    W(eng.oblige(f"{U}/post.wait-armed-with-the-remaining-hold-time", False), "wait-armed-with-the-remaining-hold-time")
+            W(eng.oblige(f"{U}/post.timer-fires-only-when-due", t - lst.t >= S.t), "timer-fires-only-when-due")
+            W(eng.oblige(f"{U}/post.hold-expiry-returns-the-first-events-arguments", returns and marker(ret) == "first-event-args"), "wrong-return")
+            W(eng.oblige(f"{U}/post.timer-leaves-false-timer", z3.And(nf1 == sft.none, z3.Implies(f0, tf1 == sft.t))), "timer-leaves-false-timer")
+            return
+        if "last" not in expr._fields:
+            W(eng.oblige(f"{U}/post.watched-change-is-evaluated", False), "watched-change-is-evaluated")
+            return
+        if expr._fields["last"] == "raises":
+            # a failing trigger expression ends the wait with that exception (C18 / C15: raised after the clean-up)
+            W(eng.oblige(f"{U}/post.expression-error-ends-the-wait-with-the-exception", end == "break" and L.get("exc") is not None), "expression-error-ends-the-wait-with-the-exception")
+            return
+        truth = expr._fields.get("last") == "true"
+        if S is not None:
+            eng.assume(z3.Implies(waiting, t - lst.t < S.t))
+        q, fs1_none, fs1_t = spec_eval(truth, t, H, f0, sft.t)
+        W(eng.oblige(f"{U}/post.false-timer-follows-the-automaton",
+                     z3.And(nf1 == fs1_none, z3.Implies(z3.Not(fs1_none), tf1 == fs1_t) if fs1_t is not None else True)), "false-timer")
+        if S is None:
+            W(eng.oblige(f"{U}/post.without-hold-returns-iff-qualifies", q if returns else (z3.Not(q) if end != "break" else False)), "return-without-hold")
+            if returns:
+                W(eng.oblige(f"{U}/post.return-carries-this-events-arguments", marker(ret) == "this-event-args"), "return-carries-this-events-arguments")
+        else:
+            W(eng.oblige(f"{U}/post.with-hold-an-evaluation-never-returns-at-once", end != "break"), "returned-at-once")
+            if truth:
+                want_wait = z3.Or(waiting, q)
+                W(eng.oblige(f"{U}/post.pending-hold-follows-the-automaton",
+                             z3.And(w1t == want_wait, z3.Implies(waiting, tl1 == lst.t), z3.Implies(z3.And(z3.Not(waiting), q), tl1 == t))), "pending-hold")
+                W(eng.oblige(f"{U}/post.true-evaluation-while-pending-keeps-first-arguments",
+                             z3.Implies(waiting, info_marker == "first-event-args")), "args-overwritten")
+                W(eng.oblige(f"{U}/post.hold-start-remembers-this-events-arguments",
+                            z3.Implies(z3.And(z3.Not(waiting), q), info_marker == "this-event-args")), "hold-start-args")
+            else:
+                W(eng.oblige(f"{U}/post.false-evaluation-cancels-pending", z3.Not(w1t)), "pending-hold")
+    return h
+
+
+def h_legacy_wait_start(eng):
+    U = "C05/TrigTime._wait_until#prologue"
+    eng.max_steps = 3_000_000
+    S, H = cfg_values(eng)
+    check_now = [False, True][eng.choose(2, "state_check_now")]
+    ident, msg, fa, nv = mk_eval_message(eng, True)
+    clock = c04.VClock(eng)
+    it, w, expr, res, q_calls = legacy_wait_step(eng, S, H, ident, msg, clock=clock, mode="start", check_now=check_now)
+    end = res.get("end")
+    eng.cover(f"end:{end}")
+    evaluated = "last" in expr._fields
+    truth = expr._fields.get("last") == "true"
+
+    def W(ob, what):
+        if ob.status == "refuted":
+            ob.witness = {"signature": f"legacy-wait:start:{what}", "subsystem": "legacy", "kind": "start", "what": what, "S_none": S is None, "H_none": H is None,
+                          "check_now": check_now, "truth": truth}
+        return ob
+    W(eng.oblige(f"{U}/post.initial-check-reads-no-queue", q_calls == []), "initial-check-reads-no-queue")
+    W(eng.oblige(f"{U}/post.initial-evaluation-iff-check-now-or-hold-false", evaluated == (bool(check_now) or H is not None)), "evaluated")
+    W(eng.oblige(f"{U}/post.initial-check-evaluates-at-most-once", len(w.events("expr")) <= 1), "initial-check-evaluates-at-most-once")
+    if evaluated and expr._fields["last"] == "raises":
+        W(eng.oblige(f"{U}/post.expression-error-at-the-call-is-raised-to-the-caller", end == "raised:UserException"), "expression-error-at-the-call-is-raised-to-the-caller")
+        return
+    occurs = bool(check_now) and evaluated and truth
+    t = clock.cur
+    if occurs and S is None:
+        W(eng.oblige(f"{U}/post.returns-immediately-when-already-true", end == "return" and res.get("returned") == {"trigger_type": "state"}), "no-return-at-start")
+        return
+    W(eng.oblige(f"{U}/post.otherwise-the-call-starts-waiting", end == "loop-entry"), "returned-at-start")
+    if end != "loop-entry":
+        return
+    L = res["locals_at_entry"]
+    w1 = L.get("state_trig_waiting")
+    w1t = w1.t if isinstance(w1, SV) else z3.BoolVal(bool(w1))
+    _, tl1 = as_opt(L.get("last_state_trig_time"))
+    nf1, tf1 = as_opt(L.get("state_false_time"))
+    info1 = L.get("state_trig_notify_info")
+    if H is not None and evaluated:
+        W(eng.oblige(f"{U}/post.false-timer-initialised", nf1 if truth else z3.And(z3.Not(nf1), tf1 == t)), "false-timer")
+    else:
+        W(eng.oblige(f"{U}/post.false-timer-unset", nf1), "false-timer-unset")
+    if occurs:
+        W(eng.oblige(f"{U}/post.initial-check-starts-the-hold", z3.And(w1t, tl1 == t)), "no-hold-at-start")
+        W(eng.oblige(f"{U}/post.initial-hold-remembers-trigger-type-state", isinstance(info1, list) and info1[1] == {"trigger_type": "state"}), "initial-hold-remembers-trigger-type-state")
+    else:
+        W(eng.oblige(f"{U}/post.no-pending-hold-otherwise", z3.Not(w1t)), "hold-at-start")
+
+
 def replay_new(wj):
     from replay.native import run_native
     return run_native("c05_holds", wj, timeout=120)
+
+
+def replay_wait(wj):
+    """the failing input of a refuted wait_until step: searched on the grid of timed histories on the real subsystem"""
+    from replay.native import run_native
+    return run_native("c05_wait_holds", wj, timeout=900)
 
 
 def bounded_histories(sub, depth, shard, nshards):
@@ -442,4 +704,7 @@ def harnesses():
     hs.append(Harness("new.start", h_new_start, units=[(DS_PY, "StateTriggerDecorator._cycle"), (DS_PY, "StateTriggerDecorator._check_new_state")],
                       replay=replay_new, max_paths=20000))
     hs.append(Harness("legacy.start", h_legacy_start, units=[(T_PY, "TrigInfo.trigger_watch")], replay=replay_new, max_paths=20000))
+    for kind in ("eval", "no-eval", "timer"):
+        hs.append(Harness(f"legacy.wait_until.step[{kind}]", h_legacy_wait(kind), units=[(T_PY, "TrigTime._wait_until")], replay=replay_wait, max_paths=20000))
+    hs.append(Harness("legacy.wait_until.start", h_legacy_wait_start, units=[(T_PY, "TrigTime._wait_until")], replay=replay_wait, max_paths=20000))
     return hs
